@@ -13,6 +13,7 @@
  * structure filled with arbitrary garbage beforehand, so a field the code forgets to set is a failure.
  * This is a BOUNDED check (all strings up to POSIX_MAXLEN bytes, loops unwound with unwinding assertions). */
 size_t gs_n;   /* ghost (contracts/posix.h) */
+int gp_h, gp_m, gp_s;
 #ifndef POSIX_MAXLEN
 #define POSIX_MAXLEN 24
 #endif
